@@ -355,3 +355,32 @@ package kv
 //@   loop 2 invariant -1 <= rangeindex && rangeindex < len(roots) && puts == old(puts)
 //@   at call:kv.S3Interface.DeleteObjectWithContext assert node-not-in-current-version: !linkIn(*s.crdt.Mast, l)
 //@   at call:kv.S3Interface.DeleteObjectWithContext#3 assert only-empty-current: mastSize(*s.crdt.Mast) == 0 && !(ns(*root.Created) >= ns(before))
+
+// ---------------------------------------------------------------------------
+// Diffs between two handles (property C12). The kv cursor unwraps the
+// crdt.Value of each side: a kv tombstone (Value nil) reads as "no value".
+//@ spec dNewI(d int, i int) interface{} = iface2(dNewTag(d, i), dNewBox(d, i))
+//@ spec dOldI(d int, i int) interface{} = iface2(dOldTag(d, i), dOldBox(d, i))
+//@ spec dKeyI(d int, i int) interface{} = iface2(dKeyTag(d, i), dKeyBox(d, i))
+//@ spec unwrapV(v interface{}) interface{} = ite(v == nil, iface(nil), v.(crdtpub.Value).Value)
+//@ spec dShape(d int, i int) bool = imp(0 <= i && i < dN(d), (dNewI(d, i) == nil || typeis(dNewI(d, i), crdtpub.Value)) && (dOldI(d, i) == nil || typeis(dOldI(d, i), crdtpub.Value)))
+
+//@ func (*DB).StartDiff
+//@   requires d != nil && d.crdt.Mast != nil && other != nil
+//@   modifies nothing
+//@   ensures imp(err == nil, result0 != nil && fresh(result0) && result0.DiffCursor != nil && fresh(result0.DiffCursor) && gf(result0.DiffCursor, "dpos") == 0 && 0 <= dN(gf(result0.DiffCursor, "dsnap")) && dTo(gf(result0.DiffCursor, "dsnap")) == *d.crdt.Mast)
+//@   ensures imp(err == nil && other.crdt.Mast != nil, dFrom(gf(result0.DiffCursor, "dsnap")) == *other.crdt.Mast)
+//@   ensures imp(err != nil, result0 == nil)
+
+//@ func (*DiffCursor).NextEntry
+//@   requires dc != nil && dc.DiffCursor != nil
+//@   requires forall i int :: dShape(gf(dc.DiffCursor, "dsnap"), i)
+//@   modifies gf(dc.DiffCursor, "dpos")
+//@   ensures 0 <= old(gf(dc.DiffCursor, "dpos")) && old(gf(dc.DiffCursor, "dpos")) <= dN(gf(dc.DiffCursor, "dsnap"))
+//@   ensures step: imp(err == nil, old(gf(dc.DiffCursor, "dpos")) < dN(gf(dc.DiffCursor, "dsnap")) && gf(dc.DiffCursor, "dpos") == old(gf(dc.DiffCursor, "dpos")) + 1)
+//@   ensures key: imp(err == nil, result0.Key == dKeyI(gf(dc.DiffCursor, "dsnap"), old(gf(dc.DiffCursor, "dpos"))))
+//@   ensures new: imp(err == nil, result0.NewValue == unwrapV(dNewI(gf(dc.DiffCursor, "dsnap"), old(gf(dc.DiffCursor, "dpos")))))
+//@   ensures old: imp(err == nil, result0.OldValue == unwrapV(dOldI(gf(dc.DiffCursor, "dsnap"), old(gf(dc.DiffCursor, "dpos")))))
+//@   ensures failed: imp(err != nil, result0.Key == nil && result0.NewValue == nil && result0.OldValue == nil && old(gf(dc.DiffCursor, "dpos")) <= gf(dc.DiffCursor, "dpos") && gf(dc.DiffCursor, "dpos") <= dN(gf(dc.DiffCursor, "dsnap")))
+//@   ensures end-keeps-place: imp(err == mast.ErrNoMoreDiffs, gf(dc.DiffCursor, "dpos") == old(gf(dc.DiffCursor, "dpos")))
+//@   ensures end-only-at-end: imp(err == mast.ErrNoMoreDiffs, old(gf(dc.DiffCursor, "dpos")) == dN(gf(dc.DiffCursor, "dsnap")))
